@@ -56,3 +56,17 @@ def key_asc_ascq(sense):
             return None
         return sense[1] & 0x0F, sense[2], sense[3]
     return None
+
+
+def present_key_asc_ascq(sense):
+    """as key_asc_ascq, per field: (key, asc, ascq) where a field whose byte lies beyond the end of a truncated buffer
+    is None (no value at that position; SPC has the application client treat it as zero).  None for an unknown
+    response code."""
+    n = len(sense)
+    rc = sense[0] & 0x7F
+    at = lambda i, mask=0xFF: (sense[i] & mask) if i < n else None
+    if is_fixed(rc):
+        return at(2, 0x0F), at(12), at(13)
+    if is_descriptor(rc):
+        return at(1, 0x0F), at(2), at(3)
+    return None
